@@ -1,4 +1,7 @@
 import E3fpVerif.Model.Fprinter
+import E3fpVerif.Lemmas.Fprinter
+import E3fpVerif.Lemmas.Subsets
+import E3fpVerif.Lemmas.FprinterEx
 namespace E3fpVerif.Props.C12
 open E3fpVerif
 
@@ -18,5 +21,542 @@ theorem label (o : Opts) (s : FState) (k : Int) (bits : Option Nat) (mask : List
       · unfold mkCount at hg; simp only at hg; split at hg <;> cases hg; rfl
     repeat' split at h
     all_goals first | (cases h; exact hl) | cases h
+
+/-! ## 1. the union keeps the old list as a prefix -/
+
+theorem unionShells_prefix (old new : List GShell) : old <+: unionShells old new :=
+  _root_.E3fpVerif.unionShells_prefix old new
+
+theorem unionShells_mem_old (old new : List GShell) : ∀ s ∈ old, s ∈ unionShells old new :=
+  _root_.E3fpVerif.unionShells_mem_of_mem_old old new
+
+theorem unionShells_length_ge (old new : List GShell) : old.length ≤ (unionShells old new).length :=
+  _root_.E3fpVerif.unionShells_length_ge old new
+
+/-! ## 2. one successful step appends one strictly larger level -/
+
+theorem step_levelShells (o : Opts) (m : MolG) (g : Geo) (atoms : List Nat) (s s' : FState)
+    (h : stepState o m g atoms s = some s') :
+    (∃ ls, s'.levelShells = s.levelShells ++ [ls] ∧ s.levelShells.getLastD [] <+: ls ∧
+      ls.length > (s.levelShells.getLastD []).length) ∧
+    s'.gen.length = s.gen.length + 1 := by
+  obtain ⟨_, _, hne, rfl⟩ := stepState_some o m g atoms s s' h
+  refine ⟨⟨_, rfl, _root_.E3fpVerif.unionShells_prefix _ _, ?_⟩, by simp⟩
+  have := _root_.E3fpVerif.unionShells_length_ge (s.levelShells.getLastD []) (stepAccepted o m g atoms s).2
+  omega
+
+/-- `current_level` goes up by one (the generator list is never empty along a run) -/
+theorem step_currentLevel (o : Opts) (m : MolG) (g : Geo) (atoms : List Nat) (s s' : FState)
+    (hg : s.gen ≠ []) (h : stepState o m g atoms s = some s') : s'.currentLevel = s.currentLevel + 1 := by
+  have := (step_levelShells o m g atoms s s' h).2
+  have : 0 < s.gen.length := List.length_pos_iff.2 hg
+  unfold FState.currentLevel; omega
+
+/-! ## 3. levels nest -/
+
+/-- the invariant: as many accepted levels as generated levels, at least one, and every level's
+list is a prefix of the next level's -/
+def Nested (s : FState) : Prop :=
+  s.levelShells.length = s.gen.length ∧ s.levelShells ≠ [] ∧
+  ∀ k, k + 1 < s.levelShells.length → s.levelShells.getD k [] <+: s.levelShells.getD (k + 1) []
+
+theorem nested_init (o : Opts) (m : MolG) (atoms : List Nat) : Nested (initState o m atoms) := by
+  unfold initState Nested
+  refine ⟨rfl, by simp, ?_⟩
+  intro k hk
+  simp at hk
+
+theorem nested_step (o : Opts) (m : MolG) (g : Geo) (atoms : List Nat) (s s' : FState)
+    (hn : Nested s) (h : stepState o m g atoms s = some s') : Nested s' := by
+  obtain ⟨⟨ls, hls, hpre, _⟩, hgen⟩ := step_levelShells o m g atoms s s' h
+  obtain ⟨h1, h2, h3⟩ := hn
+  refine ⟨by rw [hls, hgen, List.length_append, h1]; rfl, by rw [hls]; simp, ?_⟩
+  intro k hk
+  rw [hls] at hk ⊢
+  simp only [List.length_append, List.length_cons, List.length_nil] at hk
+  have hpos : 0 < s.levelShells.length := List.length_pos_iff.2 h2
+  by_cases hlt : k + 1 < s.levelShells.length
+  · rw [getD_append_lt _ _ _ _ (by omega), getD_append_lt _ _ _ _ hlt]
+    exact h3 k hlt
+  · have hk1 : k + 1 = s.levelShells.length := by omega
+    rw [getD_append_lt _ _ _ _ (by omega), hk1, getD_append_eq]
+    rw [getLastD_eq_getD] at hpre
+    have : s.levelShells.length - 1 = k := by omega
+    rw [this] at hpre
+    exact hpre
+
+/-- the invariant holds along every run -/
+theorem nested_iterate (o : Opts) (m : MolG) (g : Geo) (atoms : List Nat) (n : Nat) :
+    Nested (iterate o m g atoms n (initState o m atoms)) :=
+  iterate_induction o m g atoms Nested (nested_step o m g atoms) n _ (nested_init o m atoms)
+
+/-- **levels nest**: in the state a run returns, every shell of level `k` is a shell of level `k+1` -/
+theorem nested (o : Opts) (m : MolG) (g : Geo) (atoms : List Nat) (n : Nat) (k : Nat) :
+    let s := iterate o m g atoms n (initState o m atoms)
+    k + 1 < s.levelShells.length →
+      ∀ x ∈ s.levelShells.getD k [], x ∈ s.levelShells.getD (k + 1) [] := by
+  intro s hk x hx
+  exact ((nested_iterate o m g atoms n).2.2 k hk).subset hx
+
+/-- … hence every identifier present at level `k` is present at level `k+1` -/
+theorem nested_idents (o : Opts) (m : MolG) (g : Geo) (atoms : List Nat) (n : Nat) (k : Nat) :
+    let s := iterate o m g atoms n (initState o m atoms)
+    k + 1 < s.levelShells.length →
+      ∀ i ∈ (s.levelShells.getD k []).map (·.ident), i ∈ (s.levelShells.getD (k + 1) []).map (·.ident) := by
+  intro s hk i hi
+  rcases List.mem_map.1 hi with ⟨x, hx, rfl⟩
+  exact List.mem_map.2 ⟨x, nested o m g atoms n k hk x hx, rfl⟩
+
+/-- the same for any two levels `j ≤ k` -/
+theorem nested_le (o : Opts) (m : MolG) (g : Geo) (atoms : List Nat) (n : Nat) (j k : Nat) (hjk : j ≤ k) :
+    let s := iterate o m g atoms n (initState o m atoms)
+    k < s.levelShells.length → s.levelShells.getD j [] <+: s.levelShells.getD k [] := by
+  intro s
+  induction k with
+  | zero =>
+    intro _
+    have : j = 0 := by omega
+    subst this; exact List.prefix_refl _
+  | succ k ih =>
+    intro hk
+    by_cases hj : j = k + 1
+    · subst hj; exact List.prefix_refl _
+    · exact (ih (by omega) (by omega)).trans ((nested_iterate o m g atoms n).2.2 k hk)
+
+/-- the run through `runFp` -/
+theorem nested_run (o : Opts) (m : MolG) (g : Geo) (s : FState) (h : runFp o m g = .ok s) (k : Nat)
+    (hk : k + 1 < s.levelShells.length) :
+    ∀ x ∈ s.levelShells.getD k [], x ∈ s.levelShells.getD (k + 1) [] := by
+  obtain ⟨_, _, _, rfl⟩ := (runFp_ok_iff o m g s).1 h
+  exact nested o m g (retained o m) _ k hk
+
+/-! ## 4. truncation: the level limit is read by the first stop rule only -/
+
+theorem stepAccepted_level (o : Opts) (L' : Int) (m : MolG) (g : Geo) (atoms : List Nat) (s : FState) :
+    stepAccepted { o with level := L' } m g atoms s = stepAccepted o m g atoms s := rfl
+
+theorem genLevel_level (o : Opts) (L' : Int) (m : MolG) (g : Geo) (atoms : List Nat) (prev : List GShell)
+    (k : Nat) (t : Intern) :
+    genLevel { o with level := L' } m g atoms prev k t = genLevel o m g atoms prev k t := rfl
+
+theorem initState_level (o : Opts) (L' : Int) (m : MolG) (atoms : List Nat) :
+    initState { o with level := L' } m atoms = initState o m atoms := rfl
+
+/-- below both limits the step does not depend on the limit -/
+theorem step_level_irrelevant (o : Opts) (L' : Int) (m : MolG) (g : Geo) (atoms : List Nat) (s : FState)
+    (h1 : ¬ (o.level ≠ -1 ∧ (s.currentLevel : Int) ≥ o.level))
+    (h2 : ¬ (L' ≠ -1 ∧ (s.currentLevel : Int) ≥ L')) :
+    stepState o m g atoms s = stepState { o with level := L' } m g atoms s := by
+  rw [stepState_eq, stepState_eq]
+  have e1 : (o.level ≠ -1 && (s.currentLevel : Int) ≥ o.level) = false := by
+    simpa using h1
+  have e2 : (({ o with level := L' } : Opts).level ≠ -1
+      && (s.currentLevel : Int) ≥ ({ o with level := L' } : Opts).level) = false := by
+    simpa using h2
+  rw [e1, e2]
+  rfl
+
+/-- at or above the limit the step stops -/
+theorem step_at_limit (o : Opts) (m : MolG) (g : Geo) (atoms : List Nat) (s : FState)
+    (h : o.level ≠ -1 ∧ (s.currentLevel : Int) ≥ o.level) : stepState o m g atoms s = none := by
+  rw [stepState_eq]
+  have e1 : (o.level ≠ -1 && (s.currentLevel : Int) ≥ o.level) = true := by simpa using h
+  rw [e1]; rfl
+
+/-- with fuel `n` from a state at level `c`, `c + n ≤ L`, the limit `L` is never the reason to stop:
+the run equals the run with the limit switched off -/
+theorem iterate_limit_irrelevant (o : Opts) (L : Nat) (m : MolG) (g : Geo) (atoms : List Nat) (n : Nat)
+    (s : FState) (h : s.currentLevel + n ≤ L) :
+    iterate { o with level := (L : Int) } m g atoms n s = iterate { o with level := -1 } m g atoms n s := by
+  induction n generalizing s with
+  | zero => rfl
+  | succ n ih =>
+    have hstep : stepState { o with level := (L : Int) } m g atoms s
+        = stepState { o with level := -1 } m g atoms s :=
+      step_level_irrelevant { o with level := (L : Int) } (-1) m g atoms s
+        (by simp only [ne_eq, ge_iff_le, not_and, Int.not_le]; intro _; omega) (by simp)
+    cases hs : stepState { o with level := -1 } m g atoms s with
+    | none => rw [iterate_of_none _ _ _ _ _ _ hs, iterate_of_none _ _ _ _ _ _ (hstep.trans hs)]
+    | some s' =>
+      rw [iterate_succ_some _ _ _ _ _ _ _ hs, iterate_succ_some _ _ _ _ _ _ _ (hstep.trans hs)]
+      apply ih
+      have := (step_levelShells _ m g atoms s s' hs).2
+      unfold FState.currentLevel at h ⊢; omega
+
+/-- a run only ever appends levels -/
+theorem iterate_levelShells_prefix (o : Opts) (m : MolG) (g : Geo) (atoms : List Nat) (n : Nat) (s : FState) :
+    s.levelShells <+: (iterate o m g atoms n s).levelShells := by
+  refine iterate_induction o m g atoms (fun t => s.levelShells <+: t.levelShells) ?_ n s (List.prefix_refl _)
+  intro t t' ht hs
+  obtain ⟨⟨ls, hls, _, _⟩, _⟩ := step_levelShells o m g atoms t t' hs
+  rw [hls]; exact ht.trans (List.prefix_append _ _)
+
+/-- after fuel `n` either all `n` steps succeeded or the run has stopped for good -/
+theorem iterate_full_or_stopped (o : Opts) (m : MolG) (g : Geo) (atoms : List Nat) (n : Nat) (s : FState) :
+    (iterate o m g atoms n s).levelShells.length = s.levelShells.length + n ∨
+    stepState o m g atoms (iterate o m g atoms n s) = none := by
+  induction n generalizing s with
+  | zero => exact Or.inl rfl
+  | succ n ih =>
+    cases hs : stepState o m g atoms s with
+    | none => rw [iterate_of_none _ _ _ _ _ _ hs]; exact Or.inr hs
+    | some s' =>
+      rw [iterate_succ_some _ _ _ _ _ _ _ hs]
+      obtain ⟨⟨ls, hls, _, _⟩, _⟩ := step_levelShells o m g atoms s s' hs
+      rcases ih s' with h | h
+      · left; rw [h, hls]; simp; omega
+      · exact Or.inr h
+
+theorem iterate_length_le (o : Opts) (m : MolG) (g : Geo) (atoms : List Nat) (n : Nat) (s : FState) :
+    (iterate o m g atoms n s).levelShells.length ≤ s.levelShells.length + n := by
+  induction n generalizing s with
+  | zero => exact Nat.le_refl _
+  | succ n ih =>
+    cases hs : stepState o m g atoms s with
+    | none => rw [iterate_of_none _ _ _ _ _ _ hs]; omega
+    | some s' =>
+      rw [iterate_succ_some _ _ _ _ _ _ _ hs]
+      obtain ⟨⟨ls, hls, _, _⟩, _⟩ := step_levelShells o m g atoms s s' hs
+      have := ih s'
+      rw [hls] at this; simp at this; omega
+
+/-- the run `runFp` performs for a limit `L ≥ 0` -/
+def runTo (o : Opts) (m : MolG) (g : Geo) (atoms : List Nat) (L : Nat) : FState :=
+  iterate { o with level := (L : Int) } m g atoms L (initState o m atoms)
+
+theorem initState_currentLevel (o : Opts) (m : MolG) (atoms : List Nat) :
+    (initState o m atoms).currentLevel = 0 := rfl
+
+/-- the run to limit `L` is the unlimited run on fuel `L` -/
+theorem runTo_eq (o : Opts) (m : MolG) (g : Geo) (atoms : List Nat) (L : Nat) :
+    runTo o m g atoms L = iterate { o with level := -1 } m g atoms L (initState o m atoms) :=
+  iterate_limit_irrelevant o L m g atoms L _ (by rw [initState_currentLevel]; omega)
+
+/-- `runFp` with a limit `L ≥ 0` computes `runTo` -/
+theorem runFp_runTo (o : Opts) (m : MolG) (g : Geo) (L : Nat) (s : FState)
+    (h : runFp { o with level := (L : Int) } m g = .ok s) :
+    s = runTo o m g (retained o m) L := by
+  obtain ⟨_, _, _, rfl⟩ := (runFp_ok_iff _ m g s).1 h
+  have hL : ¬ ((L : Int) = -1) := by omega
+  unfold runFuel runTo
+  simp only [hL, if_false, Int.toNat_natCast]
+  rfl
+
+/-- **truncation**: the levels of the run to limit `k` are a prefix of the levels of the run to any
+limit `L ≥ k`; when the longer run reaches level `k` they are exactly its first `k+1` levels -/
+theorem truncation (o : Opts) (m : MolG) (g : Geo) (atoms : List Nat) (k L : Nat) (hkL : k ≤ L) :
+    (runTo o m g atoms k).levelShells <+: (runTo o m g atoms L).levelShells ∧
+    (k + 1 ≤ (runTo o m g atoms L).levelShells.length →
+      (runTo o m g atoms L).levelShells.take (k + 1) = (runTo o m g atoms k).levelShells) := by
+  rw [runTo_eq, runTo_eq]
+  obtain ⟨d, rfl⟩ : ∃ d, L = k + d := ⟨L - k, by omega⟩
+  rw [iterate_add]
+  have hpre := iterate_levelShells_prefix { o with level := -1 } m g atoms d
+    (iterate { o with level := -1 } m g atoms k (initState o m atoms))
+  refine ⟨hpre, ?_⟩
+  intro hlen
+  have hinit : (initState o m atoms).levelShells.length = 1 := rfl
+  have hlenk : (iterate { o with level := -1 } m g atoms k (initState o m atoms)).levelShells.length = k + 1 := by
+    rcases iterate_full_or_stopped { o with level := -1 } m g atoms k (initState o m atoms) with h | h
+    · rw [h, hinit]; omega
+    · rw [iterate_of_none _ _ _ _ _ _ h] at hlen
+      have := iterate_length_le { o with level := -1 } m g atoms k (initState o m atoms)
+      rw [hinit] at this
+      omega
+  rw [← hlenk]
+  exact (List.prefix_iff_eq_take.1 hpre).symm
+
+/-- in general: the shorter run's levels are the longer run's levels cut at the shorter run's length -/
+theorem truncation_take (o : Opts) (m : MolG) (g : Geo) (atoms : List Nat) (k L : Nat) (hkL : k ≤ L) :
+    (runTo o m g atoms L).levelShells.take (runTo o m g atoms k).levelShells.length
+      = (runTo o m g atoms k).levelShells :=
+  (List.prefix_iff_eq_take.1 (truncation o m g atoms k L hkL).1).symm
+
+/-- level by level: level `j ≤ k` of the run to limit `L ≥ k` is level `j` of the run to limit `k`,
+whenever the shorter run has that level -/
+theorem truncation_level (o : Opts) (m : MolG) (g : Geo) (atoms : List Nat) (j k L : Nat) (hkL : k ≤ L)
+    (hj : j < (runTo o m g atoms k).levelShells.length) :
+    (runTo o m g atoms L).levelShells.getD j [] = (runTo o m g atoms k).levelShells.getD j [] := by
+  obtain ⟨t, ht⟩ := (truncation o m g atoms k L hkL).1
+  rw [← ht]
+  simp [List.getD_eq_getElem?_getD, List.getElem?_append_left hj]
+
+/-- the statement through `runFp` -/
+theorem truncation_run (o : Opts) (m : MolG) (g : Geo) (k L : Nat) (hkL : k ≤ L) (sk sL : FState)
+    (hk : runFp { o with level := (k : Int) } m g = .ok sk)
+    (hL : runFp { o with level := (L : Int) } m g = .ok sL) :
+    sk.levelShells <+: sL.levelShells ∧
+    (k + 1 ≤ sL.levelShells.length → sL.levelShells.take (k + 1) = sk.levelShells) := by
+  rw [runFp_runTo o m g k sk hk, runFp_runTo o m g L sL hL]
+  exact truncation o m g (retained o m) k L hkL
+
+/-! ## 5. requested levels beyond the last one resolve to the last one -/
+
+theorem beyond_last (s : FState) (k : Int) (mask : List Nat)
+    (h : k < 0 ∨ (s.levelShells.length : Int) ≤ k) :
+    shellsAt s (some k) mask = shellsAt s (some (-1)) mask := by
+  unfold shellsAt resolveLevel
+  have e1 : ¬ (0 ≤ k ∧ k.toNat < s.levelShells.length) := by omega
+  have e2 : ¬ (0 ≤ (-1 : Int) ∧ (-1 : Int).toNat < s.levelShells.length) := by omega
+  simp only [e1, e2, if_false]
+
+theorem beyond_last_none (s : FState) (k : Int) (mask : List Nat)
+    (h : k < 0 ∨ (s.levelShells.length : Int) ≤ k) :
+    shellsAt s (some k) mask = shellsAt s none mask := by
+  unfold shellsAt resolveLevel
+  have e1 : ¬ (0 ≤ k ∧ k.toNat < s.levelShells.length) := by omega
+  simp only [e1, if_false]
+
+/-! ## 6. convergence: with duplicate removal every successful step records a new substructure -/
+
+theorem stepAccepted_dedup (o : Opts) (m : MolG) (g : Geo) (atoms : List Nat) (s : FState)
+    (hd : o.removeDup = true) :
+    stepAccepted o m g atoms s =
+      (s.past ++ (dedupSpec s.past (sortByLt ltShell
+          (genLevel o m g atoms (s.gen.getLastD []) (s.currentLevel + 1) s.tbl).2)).map (·.sub),
+        dedupSpec s.past (sortByLt ltShell
+          (genLevel o m g atoms (s.gen.getLastD []) (s.currentLevel + 1) s.tbl).2)) := by
+  unfold stepAccepted
+  simp only [hd, if_true, dedupShells_eq]
+
+/-- a successful step accepts at least one shell -/
+theorem step_accepts (o : Opts) (m : MolG) (g : Geo) (atoms : List Nat) (s s' : FState)
+    (h : stepState o m g atoms s = some s') : (stepAccepted o m g atoms s).2 ≠ [] := by
+  obtain ⟨_, _, hne, _⟩ := stepState_some o m g atoms s s' h
+  intro he
+  rw [he, unionShells_nil] at hne
+  exact hne rfl
+
+/-- `past` grows strictly in every successful step (under `remove_duplicate_substructs`) -/
+theorem past_grows (o : Opts) (m : MolG) (g : Geo) (atoms : List Nat) (s s' : FState)
+    (hd : o.removeDup = true) (h : stepState o m g atoms s = some s') :
+    s'.past.length > s.past.length ∧ s.past <+: s'.past := by
+  have hacc := step_accepts o m g atoms s s' h
+  obtain ⟨_, _, _, rfl⟩ := stepState_some o m g atoms s s' h
+  rw [stepAccepted_dedup o m g atoms s hd] at hacc ⊢
+  simp only at hacc ⊢
+  refine ⟨?_, List.prefix_append _ _⟩
+  have := List.length_pos_iff.2 hacc
+  rw [List.length_append, List.length_map]; omega
+
+theorem genShell_subOf (o : Opts) (m : MolG) (g : Geo) (atoms : List Nat) (prev : List GShell) (k : Nat)
+    (t : Intern) (a : Nat) (hprev : ∀ x ∈ prev, ∀ y ∈ x.sub, y ∈ atoms) (ha : a ∈ atoms) :
+    SubOf atoms (genShell o m g atoms prev k t a).sub := by
+  refine ⟨strictAsc_uniq _, ?_⟩
+  intro y hy
+  have hy : y ∈ a :: (nbOf o m g atoms k a).flatMap (fun b => (shellOf prev b).sub) := (mem_uniq _ _).1 hy
+  rcases List.mem_cons.1 hy with rfl | hy
+  · exact ha
+  · rcases List.mem_flatMap.1 hy with ⟨b, _, hyb⟩
+    rcases shellOf_mem_or_default prev b with h | h
+    · exact hprev _ h y hyb
+    · rw [h] at hyb; cases hyb
+
+/-- the convergence invariant: the substructures recorded since the start (`added`) are distinct
+substructures over `atoms`, at least `a` of them -/
+def ConvInv (atoms : List Nat) (p0 : List (List Nat)) (s : FState) (a : Nat) : Prop :=
+  (∀ x ∈ s.gen.getLastD [], ∀ y ∈ x.sub, y ∈ atoms) ∧
+  ∃ added, s.past = p0 ++ added ∧ added.Nodup ∧ (∀ p ∈ added, SubOf atoms p) ∧ a ≤ added.length
+
+theorem conv_init (o : Opts) (m : MolG) (atoms : List Nat) :
+    ConvInv atoms (initState o m atoms).past (initState o m atoms) 0 := by
+  refine ⟨?_, [], (List.append_nil _).symm, List.nodup_nil, ?_, Nat.le_refl _⟩
+  · intro x hx y hy
+    have hx : x ∈ (genLevel0 o m atoms []).2 := by simpa [initState] using hx
+    obtain ⟨ha, t', hx'⟩ := genLevel0_mem o m atoms [] x hx
+    rw [hx'] at hy
+    simp only [gen0Shell, List.mem_singleton] at hy
+    subst hy; exact ha
+  · intro p hp; cases hp
+
+theorem conv_step (o : Opts) (m : MolG) (g : Geo) (atoms : List Nat) (p0 : List (List Nat))
+    (s s' : FState) (a : Nat) (hd : o.removeDup = true) (hinv : ConvInv atoms p0 s a)
+    (h : stepState o m g atoms s = some s') : ConvInv atoms p0 s' (a + 1) := by
+  have hacc := step_accepts o m g atoms s s' h
+  obtain ⟨_, _, _, rfl⟩ := stepState_some o m g atoms s s' h
+  obtain ⟨hgen, added, hpast, hnd, hsub, hlen⟩ := hinv
+  rw [stepAccepted_dedup o m g atoms s hd] at hacc ⊢
+  simp only at hacc ⊢
+  have hmem : ∀ x ∈ dedupSpec s.past (sortByLt ltShell
+      (genLevel o m g atoms (s.gen.getLastD []) (s.currentLevel + 1) s.tbl).2),
+      x.atom ∈ atoms ∧ ∃ t', x = genShell o m g atoms (s.gen.getLastD []) (s.currentLevel + 1) t' x.atom := by
+    intro x hx
+    exact genLevel_mem o m g atoms _ _ _ x
+      ((mem_sortByLt _ _ _).1 ((dedupSpec_sublist _ _).subset hx))
+  refine ⟨?_, added ++ (dedupSpec s.past (sortByLt ltShell
+      (genLevel o m g atoms (s.gen.getLastD []) (s.currentLevel + 1) s.tbl).2)).map (·.sub),
+      by rw [hpast, List.append_assoc], ?_, ?_, ?_⟩
+  · intro x hx y hy
+    have hx : x ∈ (genLevel o m g atoms (s.gen.getLastD []) (s.currentLevel + 1) s.tbl).2 := by
+      simpa using hx
+    obtain ⟨ha, t', hx'⟩ := genLevel_mem o m g atoms _ _ _ x hx
+    rw [hx'] at hy
+    exact (genShell_subOf o m g atoms _ _ t' x.atom hgen ha).2 y hy
+  · rw [List.nodup_append]
+    refine ⟨hnd, dedupSpec_nodup _ _, ?_⟩
+    intro p hp q hq hpq
+    rcases List.mem_map.1 hq with ⟨x, hx, rfl⟩
+    apply dedupSpec_not_past _ _ x hx
+    rw [hpast, ← hpq]
+    exact List.mem_append_right _ hp
+  · intro p hp
+    rcases List.mem_append.1 hp with hp | hp
+    · exact hsub p hp
+    · rcases List.mem_map.1 hp with ⟨x, hx, rfl⟩
+      obtain ⟨ha, t', hx'⟩ := hmem x hx
+      rw [hx']
+      exact genShell_subOf o m g atoms _ _ t' x.atom hgen ha
+  · have := List.length_pos_iff.2 hacc
+    rw [List.length_append, List.length_map]; omega
+
+theorem conv_iterate (o : Opts) (m : MolG) (g : Geo) (atoms : List Nat) (p0 : List (List Nat))
+    (hd : o.removeDup = true) (n : Nat) (s : FState) (a : Nat) (hinv : ConvInv atoms p0 s a) :
+    stepState o m g atoms (iterate o m g atoms n s) = none ∨
+      ConvInv atoms p0 (iterate o m g atoms n s) (a + n) := by
+  induction n generalizing s a with
+  | zero => exact Or.inr hinv
+  | succ n ih =>
+    cases hs : stepState o m g atoms s with
+    | none => rw [iterate_of_none _ _ _ _ _ _ hs]; exact Or.inl hs
+    | some s' =>
+      rw [iterate_succ_some _ _ _ _ _ _ _ hs]
+      have := ih s' (a + 1) (conv_step o m g atoms p0 s s' a hd hinv hs)
+      rwa [show a + 1 + n = a + (n + 1) by omega] at this
+
+theorem conv_bound (atoms : List Nat) (p0 : List (List Nat)) (s : FState) (a : Nat)
+    (hinv : ConvInv atoms p0 s a) : a ≤ 2 ^ atoms.length := by
+  obtain ⟨_, added, _, hnd, hsub, hlen⟩ := hinv
+  exact Nat.le_trans hlen (card_subsets atoms added hnd hsub)
+
+/-- **convergence**: with duplicate-substructure removal the iteration stops on its own after at
+most `2^|atoms|` steps, whatever the level limit -/
+theorem converges (o : Opts) (m : MolG) (g : Geo) (atoms : List Nat) (hd : o.removeDup = true) :
+    ∃ n, n ≤ 2 ^ atoms.length ∧
+      stepState o m g atoms (iterate o m g atoms n (initState o m atoms)) = none := by
+  refine ⟨2 ^ atoms.length, Nat.le_refl _, ?_⟩
+  rcases conv_iterate o m g atoms _ hd (2 ^ atoms.length) _ 0 (conv_init o m atoms) with h | h
+  · exact h
+  · cases hs : stepState o m g atoms (iterate o m g atoms (2 ^ atoms.length) (initState o m atoms)) with
+    | none => rfl
+    | some s' =>
+      have := conv_bound atoms _ s' _ (conv_step o m g atoms _ _ s' _ hd h hs)
+      omega
+
+/-- **level -1 means convergence**: the state `runFp` returns for `level = -1` is a fixed point of
+the iteration — the run stopped by one of the stop rules, not because the fuel ran out -/
+theorem run_converged (o : Opts) (m : MolG) (g : Geo) (s : FState) (hl : o.level = -1)
+    (h : runFp o m g = .ok s) : stepState o m g (retained o m) s = none := by
+  obtain ⟨h1, _, _, rfl⟩ := (runFp_ok_iff o m g s).1 h
+  have hd := h1 hl
+  obtain ⟨n, hn, hstop⟩ := converges o m g (retained o m) hd
+  have hf : runFuel o (retained o m) = n + (2 ^ (retained o m).length + 1 - n) := by
+    unfold runFuel; rw [if_pos hl]; omega
+  rw [hf, iterate_add, iterate_of_none _ _ _ _ _ _ hstop]
+  exact hstop
+
+/-- … and the stop was not the level rule: either every substructure is complete or the next level
+adds no shell -/
+theorem run_converged_reason (o : Opts) (m : MolG) (g : Geo) (s : FState) (hl : o.level = -1)
+    (h : runFp o m g = .ok s) :
+    (s.gen.getLastD []).all (fun x => x.sub.length == (retained o m).length) = true ∨
+    (unionShells (s.levelShells.getLastD []) (stepAccepted o m g (retained o m) s).2).length
+      = (s.levelShells.getLastD []).length := by
+  have hstop := run_converged o m g s hl h
+  rw [stepState_eq] at hstop
+  have e1 : (o.level ≠ -1 && (s.currentLevel : Int) ≥ o.level) = false := by simp [hl]
+  rw [e1] at hstop
+  split at hstop
+  · rename_i hc; cases hc
+  split at hstop
+  · rename_i h2
+    simp only [Bool.and_eq_true] at h2
+    exact Or.inl h2.2
+  · simp only at hstop
+    split at hstop
+    · rename_i h3; exact Or.inr h3
+    · cases hstop
+
+/-- a level limit at or beyond the point of convergence gives the levels of the `-1` run -/
+theorem large_limit_eq_converged (o : Opts) (m : MolG) (g : Geo) (atoms : List Nat)
+    (hd : o.removeDup = true) (L : Nat) (hL : 2 ^ atoms.length ≤ L) :
+    runTo o m g atoms L =
+      iterate { o with level := -1 } m g atoms (2 ^ atoms.length + 1) (initState o m atoms) := by
+  rw [runTo_eq]
+  obtain ⟨n, hn, hstop⟩ := converges { o with level := -1 } m g atoms hd
+  rw [initState_level] at hstop
+  rw [show L = n + (L - n) by omega, iterate_add, iterate_of_none _ _ _ _ _ _ hstop,
+    show 2 ^ atoms.length + 1 = n + (2 ^ atoms.length + 1 - n) by omega, iterate_add,
+    iterate_of_none _ _ _ _ _ _ hstop]
+
+/-- every limited run is a truncation of the converged (`level = -1`) run -/
+theorem truncation_converged (o : Opts) (m : MolG) (g : Geo) (atoms : List Nat)
+    (hd : o.removeDup = true) (k : Nat) :
+    (runTo o m g atoms k).levelShells <+:
+      (iterate { o with level := -1 } m g atoms (2 ^ atoms.length + 1) (initState o m atoms)).levelShells := by
+  by_cases hk : 2 ^ atoms.length ≤ k
+  · rw [large_limit_eq_converged o m g atoms hd k hk]; exact List.prefix_refl _
+  · rw [runTo_eq, show 2 ^ atoms.length + 1 = k + (2 ^ atoms.length + 1 - k) by omega, iterate_add]
+    exact iterate_levelShells_prefix _ m g atoms _ _
+
+/-! ## non-vacuity: the hypotheses above are met by the four-atom chain of `Lemmas/FprinterEx.lean` -/
+section NonVacuity
+open Ex
+
+/- `step_levelShells`, `step_currentLevel`, `past_grows`, `step_accepts`, `nested_step`, `conv_step`:
+a step that succeeds -/
+example : ∃ s', stepState o m g atoms s0 = some s' := Option.isSome_iff_exists.1 step0_some
+example : s0.gen ≠ [] := by simp [s0, initState]
+example : o.removeDup = true := rfl
+example : ∃ s', stepState o m g atoms s0 = some s' ∧ s'.currentLevel = s0.currentLevel + 1 := by
+  obtain ⟨s', h⟩ := Option.isSome_iff_exists.1 step0_some
+  exact ⟨s', h, step_currentLevel o m g atoms s0 s' (by simp [s0, initState]) h⟩
+
+/- `nested`, `nested_idents`, `nested_le`: levels 0 < 1 < 2 all exist after three units of fuel -/
+set_option maxRecDepth 100000 in
+example : 1 + 1 < (iterate o m g atoms 3 (initState o m atoms)).levelShells.length := by decide
+
+/- `nested_run`, `truncation_run`, `run_converged`: runs that succeed, and reach level 2 -/
+set_option maxRecDepth 100000 in
+example : (runFp o m g).toOption.map (·.levelShells.map (·.length)) = some [4, 8, 9] := by decide
+set_option maxRecDepth 100000 in
+example : (runFp { o with level := 1 } m g).toOption.map (·.levelShells.map (·.length)) = some [4, 8] := by
+  decide
+set_option maxRecDepth 100000 in
+example : (runFp { o with level := -1 } m g).toOption.map (·.levelShells.map (·.length)) = some [4, 8, 9] := by
+  decide
+example : ∃ s, runFp { o with level := -1 } m g = .ok s ∧ ({ o with level := -1 } : Opts).level = -1 :=
+  ⟨_, (runFp_ok_iff _ m g _).2 ⟨fun _ => rfl, by decide, by show retained o m ≠ []; rw [retained_eq]; decide, rfl⟩, rfl⟩
+
+/- `step_level_irrelevant`: the start state is below the limits 3 and 1 -/
+example : ¬ (o.level ≠ -1 ∧ (s0.currentLevel : Int) ≥ o.level) ∧
+    ¬ ((1 : Int) ≠ -1 ∧ (s0.currentLevel : Int) ≥ 1) := by decide
+
+/- `step_at_limit`: with limit 0 the start state is at the limit -/
+example : ({ o with level := 0 } : Opts).level ≠ -1 ∧
+    ((s0.currentLevel : Int) ≥ ({ o with level := 0 } : Opts).level) := by decide
+
+/- `iterate_limit_irrelevant`: from level 0, three steps stay within limit 3 -/
+example : s0.currentLevel + 3 ≤ 3 := by decide
+
+/- `truncation`: the run to limit 3 reaches level 1, and the run to limit 1 really is shorter -/
+set_option maxRecDepth 100000 in
+example : 1 + 1 ≤ (runTo o m g atoms 3).levelShells.length ∧
+    (runTo o m g atoms 1).levelShells.length < (runTo o m g atoms 3).levelShells.length := by decide
+
+/- `truncation_level` -/
+set_option maxRecDepth 100000 in
+example : 1 < (runTo o m g atoms 1).levelShells.length := by decide
+
+/- `beyond_last`: level 7 was never generated -/
+set_option maxRecDepth 100000 in
+example : (7 : Int) < 0 ∨ (((sN 3).levelShells.length : Nat) : Int) ≤ 7 := by decide
+
+/- `large_limit_eq_converged` -/
+example : o.removeDup = true ∧ 2 ^ atoms.length ≤ 16 := by decide
+
+/- `conv_bound`, `conv_iterate`: the invariant holds at the start (`conv_init`) -/
+example : ConvInv atoms s0.past s0 0 := conv_init o m atoms
+
+end NonVacuity
 
 end E3fpVerif.Props.C12
